@@ -596,4 +596,113 @@ theorem modPol_refused (n : Str) (f : Var → R) (k : Kind) (v : Var) (hf : f v 
       simp only [hm] at h
       simp [modPol, eligible, hm, ih _ h]
 
+
+/-! ## the command scope a builtin runs in is transparent (context sweep) -/
+
+/-- the result of an operation run under one more (empty) command scope -/
+def lift (r : Env × Bool) : Env × Bool := ({ scopes := (.command, []) :: r.1.scopes }, r.2)
+
+theorem get_push (e : Env) (k : Kind) (n : Str) : (e.push k).get n = e.get n := by
+  simp [Env.get, Env.push, getScopes, mget]
+
+theorem modify_push_command (e : Env) (n : Str) (pol : Policy) (f : Var → R) :
+    (e.push .command).modify n pol f = (e.modify n pol f).map lift := by
+  simp only [Env.modify, Env.push, modPol, eligible, bump, mget]
+  cases pol <;> cases h : modPol n _ f 0 e.scopes <;> simp [h, lift]
+
+theorem add_push_command (e : Env) (n : Str) (v : Var) (k : Kind) (hk : k ≠ .command) :
+    (e.push .command).add n v k = lift (e.add n v k) := by
+  have : ¬ (Kind.command = k) := fun h => hk h.symm
+  simp only [Env.add, Env.push, addScopes, this, if_false]
+  cases h : addScopes n v k e.scopes <;> simp [h, lift]
+
+theorem unset_push_command (e : Env) (n : Str) : (e.push .command).unset n = lift (e.unset n) := by
+  simp only [Env.unset, Env.push, unsetScopes, bump, mget]
+  cases h : unsetScopes n 0 e.scopes
+  simp [h, lift]
+
+theorem lift_id (e : Env) (b : Bool) : (e.push .command, b) = lift (e, b) := rfl
+
+theorem isScalar_push (e : Env) (k : Kind) (n : Str) : (e.push k).isScalar n = e.isScalar n := by
+  simp [Env.isScalar, get_push]
+
+theorem hidesReadonly_push (e : Env) (k : Kind) (n : Str) : (e.push k).hidesReadonly n = e.hidesReadonly n := by
+  simp [Env.hidesReadonly, get_push]
+
+theorem updateOrAdd_push (e : Env) (n : Str) (lit : Lit) (u : Updater) (pol : Policy) (k : Kind) (hk : k ≠ .command) :
+    (e.push .command).updateOrAdd n lit u pol k = lift (e.updateOrAdd n lit u pol k) := by
+  simp only [Env.updateOrAdd, modify_push_command]
+  cases h : e.modify n pol _ with
+  | some r => simp
+  | none =>
+    simp only [Option.map_none]
+    split
+    · exact add_push_command e n _ k hk
+    · rfl
+
+theorem updateOrAddElem_push (e : Env) (n i v : Str) (pol : Policy) (k : Kind) (hk : k ≠ .command) :
+    (e.push .command).updateOrAddElem n i v pol k = lift (e.updateOrAddElem n i v pol k) := by
+  simp only [Env.updateOrAddElem, modify_push_command]
+  cases h : e.modify n pol _ with
+  | some r => simp
+  | none =>
+    simp only [Option.map_none]
+    split
+    · exact add_push_command e n _ k hk
+    · rfl
+
+theorem unsetIndex_push (e : Env) (n i : Str) : (e.push .command).unsetIndex n i = lift (e.unsetIndex n i) := by
+  simp only [Env.unsetIndex, isScalar_push, modify_push_command, unset_push_command]
+  split
+  · rfl
+  · cases h : e.modify n .anywhere _ with
+    | some r => simp
+    | none => simp; rfl
+
+theorem exportName_push (e : Env) (n : Str) (un : Bool) : (e.push .command).exportName n un = lift (e.exportName n un) := by
+  simp only [Env.exportName, modify_push_command]
+  cases h : e.modify n .anywhere _ with
+  | some r => simp
+  | none =>
+    simp only [Option.map_none]
+    split
+    · rfl
+    · exact add_push_command e n _ _ (by simp)
+
+theorem exportAssign_push (e : Env) (n : Str) (lit : Lit) (ap un : Bool) :
+    (e.push .command).exportAssign n lit ap un = lift (e.exportAssign n lit ap un) := by
+  simp only [Env.exportAssign, get_push, modify_push_command]
+  split
+  · cases h : e.modify n .anywhere _ with
+    | some r => simp
+    | none => simp; rfl
+  · exact updateOrAdd_push e n lit _ _ _ (by simp)
+
+theorem assignDefault_push (e : Env) (n v : Str) : (e.push .command).assignDefault n v = lift (e.assignDefault n v) := by
+  simp only [Env.assignDefault, get_push]
+  split
+  · rfl
+  · exact updateOrAdd_push e n _ _ _ _ (by simp)
+
+theorem match_lift (o : Option (Env × Bool)) (d : Env × Bool) :
+    (match o.map lift with | some r => r | none => lift d) = lift (match o with | some r => r | none => d) := by
+  cases o <;> rfl
+
+theorem ite_lift (c : Prop) [Decidable c] (a b : Env × Bool) : (if c then lift a else lift b) = lift (if c then a else b) := by
+  split <;> rfl
+
+theorem applyPlain_push (e : Env) (n : Str) (idx : Option Str) (lit : Lit) (ap ex : Bool) :
+    (e.push .command).applyAssignment n idx lit ap ex none .global = lift (e.applyAssignment n idx lit ap ex none .global) := by
+  have hg : Kind.global ≠ Kind.command := by simp
+  simp only [Env.applyAssignment, Option.isSome_none, Bool.false_eq_true, if_false, get_push, hidesReadonly_push,
+    modify_push_command, add_push_command _ _ _ _ hg, lift_id]
+  cases idx <;> cases lit <;> simp only [match_lift, ite_lift] <;> (split <;> first | exact match_lift _ _ | rfl)
+
+theorem declare_push (e : Env) (n : Str) (fl : DeclFlags) (verb : Verb) (lit : Option Lit) (ai na inf : Bool) :
+    (e.push .command).declare n fl verb lit ai na inf = lift (e.declare n fl verb lit ai na inf) := by
+  have hk : ∀ c : Bool, (if c = true then Kind.loc else Kind.global) ≠ Kind.command := by intro c; split <;> simp
+  simp only [Env.declare, get_push, modify_push_command, lift_id, add_push_command _ _ _ _ (hk _), ite_lift]
+  exact match_lift _ _
+
+
 end BrushVerif.Env
